@@ -25,7 +25,7 @@ from ..domains.unstructured_domain import UnstructuredDomain
 from ..field import Field
 from ..multi_domain import MultiDomain
 from ..multi_field import MultiField
-from ..utilities import check_object_identity
+from ..utilities import check_object_identity, iscomplextype
 from .endomorphic_operator import EndomorphicOperator
 from .linear_operator import LinearOperator
 
@@ -141,10 +141,10 @@ class Imaginizer(EndomorphicOperator):
     def apply(self, x, mode):
         self._check_input(x, mode)
         if mode == self.TIMES:
-            if not np.issubdtype(x.dtype, np.complexfloating):
+            if not iscomplextype(x.dtype):
                 raise ValueError
             return x.imag
-        if x.dtype not in (np.float64, np.float32):
+        if iscomplextype(x.dtype):
             raise ValueError
         return 1j*x
 
